@@ -16,13 +16,6 @@
         defaults and environment. *)
 From JV Require Import Lib.Base Lib.C04Base Model.C04Sources.
 
-(* argparse only knows the option strings of the parser it runs in *)
-Definition own_arg (p : parser) (a : arg) : bool :=
-  match a with
-  | AAsg x => declared p (fst x)
-  | ACfg _ => true
-  end.
-
 (* subparser.parse_args(..., env=env, defaults=defaults): same env= argument; default_env was copied
    from the parent by add_subcommand (and reads JSONARGPARSE_DEFAULT_ENV the same way) *)
 Definition sub_call (sc : scall) : call :=
@@ -32,17 +25,93 @@ Definition sub_call (sc : scall) : call :=
      c_patterns := []; c_envcfg := None; c_envvars := s_subenv sc;
      c_entry := EArgs (s_subargv sc) |}.
 
-Definition pipeline_sub (sc : scall) : res node :=
+(* ---- merge_config as the PARENT runs it on a namespace with a NAME: section ----------------------------
+   ActionTypeHint.apply_appends(parser, cfg): _find_action(parser, "NAME.l") descends into the
+   subcommand and returns ITS action, whose dest is relative ("l"); action._check_type_(cfg[key],
+   append=True, cfg=cfg) then reads the list built so far with cfg.get(self.dest), i.e. under the
+   relative name at the parent's level (the parent's own key of that name, or nothing). *)
+(* Proposed repairs (fixes/C04-*.patch); `nofix` is the unchanged code.
+   fx_append:  apply_appends reads the list built so far inside the subcommand's branch
+               (fixes/C04-section-append-uses-parent-list.patch);
+   fx_section: get_defaults no longer insists on a subcommand after a default config file
+               (fixes/C04-default-config-without-subcommand-section-rejected.patch). *)
+Record fixes := { fx_append : bool; fx_section : bool }.
+Definition nofix : fixes := {| fx_append := false; fx_section := false |}.
+
+Definition aa_step_sub (fx : fixes) (pown : parser) (nm : name) (ps : parser) (cfg : node) (key : tpath) : node :=
+  match find_action pown (strip key) with
+  | Some d =>
+      if supports_append d then
+        match lget key cfg with
+        | Some v => ns_pop key (ns_set (strip key) (Leaf (check_append (prev_val d cfg) v)) cfg)
+        | None => cfg
+        end
+      else cfg
+  | None =>
+      match key with
+      | a :: k' =>
+          if name_eqb a nm then
+            match find_action ps (strip k') with
+            | Some d =>
+                if supports_append d then
+                  match lget key cfg with
+                  | Some v =>
+                      let prev := if fx_append fx
+                                  then match lget (nm :: d_key d) cfg with Some w => w | None => VNone end
+                                  else prev_val d cfg in
+                      ns_pop key (ns_set (nm :: d_key d) (Leaf (check_append prev v)) cfg)
+                  | None => cfg
+                  end
+                else cfg
+            | None => cfg
+            end
+          else cfg
+      | [] => cfg
+      end
+  end.
+
+Definition apply_appends_sub fx pown nm ps (cfg : node) : node :=
+  fold_left (aa_step_sub fx pown nm ps) (filter is_plus (keys cfg)) cfg.
+
+Definition merge_config_sub fx pown nm ps (cfg_from cfg_to : node) : node :=
+  apply_appends_sub fx pown nm ps (update (clone cfg_to) (clone cfg_from)).
+
+Definition apply_config_sub fx pown nm ps (cfg : node) (d : doc) : node :=
+  let cfg_merged := merge_config_sub fx pown nm ps (load_config d) cfg in
+  Br (f_update (kids cfg) (kids cfg_merged)).
+
+(* the parent's items: options of the parent (argparse knows only those), --cfg documents *)
+Fixpoint argv_fold_parent (fx : fixes) pown nm ps (cfg : node) (argv : list arg) : res node :=
+  match argv with
+  | [] => Ok cfg
+  | ACfg d :: argv' => argv_fold_parent fx pown nm ps (apply_config_sub fx pown nm ps cfg d) argv'
+  | AAsg x :: argv' =>
+      let (opt, v) := render_arg x in
+      match option_step pown cfg opt v with
+      | Ok cfg' => argv_fold_parent fx pown nm ps cfg' argv'
+      | Unrecognized => Unrecognized
+      end
+  end.
+
+(* get_defaults runs _parse_common (fail_no_subcommand) on the namespace after EVERY default config
+   file: a required subcommand must be known by then, i.e. the first non-blank file needs a section of
+   some subcommand (later files find the branch left by the first) *)
+Definition first_file_has_section (nm : name) (pats : list (list (str * doc))) : bool :=
+  match filter (fun d : doc => match d with [] => false | _ => true end) (default_config_files pats) with
+  | d :: _ => existsb (fun a => starts_with nm (fst a)) d
+  | [] => true
+  end.
+
+Definition pipeline_sub_fx (fx : fixes) (sc : scall) : res node :=
   let c := s_parent sc in
   let pown := c_parser c in
-  let pall := all_decls sc in
   let nm := s_name sc in
   let ps := s_sub sc in
   match c_entry c with
   | EArgs argv =>
-      if negb (forallb (own_arg pown) argv) then Unrecognized else
+      if negb (fx_section fx || first_file_has_section nm (c_patterns c)) then Unrecognized else
       (* 1, 2 *)
-      match argv_fold pall (defaults_and_environ c) argv with
+      match argv_fold_parent fx pown nm ps (defaults_and_environ c) argv with
       | Unrecognized => Unrecognized
       | Ok cfg1 =>
           (* 3: subnamespace = namespace.get(NAME).clone() if NAME in namespace else None *)
@@ -61,3 +130,5 @@ Definition pipeline_sub (sc : scall) : res node :=
       end
   | _ => Unrecognized                      (* subcommands are modelled for parse_args only *)
   end.
+
+Definition pipeline_sub : scall -> res node := pipeline_sub_fx nofix.
